@@ -1114,6 +1114,18 @@ def setitem(I: Interp, base: V, idx: V, val: V) -> None:
 
 
 def delitem(I: Interp, base: V, idx: V) -> None:
+    if isinstance(base, VList) and is_intlike(idx):
+        ic = VInt(as_int(I, idx)).concrete()
+        if base.items is not None and ic is not None:
+            if not -len(base.items) <= ic < len(base.items):
+                I.raise_py(IndexError, "list assignment index out of range")
+            del base.items[ic]
+            return
+        if base.items is None and ic == -1:
+            if I.branch(base.n <= 0):
+                I.raise_py(IndexError, "list assignment index out of range")
+            base.n = simp(base.n - 1)
+            return
     if isinstance(base, VDict):
         for i, (k, _) in enumerate(base.items):
             if I.branch(mk_eq(I, k, idx)):
@@ -1557,6 +1569,14 @@ def _int(I: Interp, args: list[V], kwargs: dict[str, V]) -> V:
     if isinstance(v, VStr):
         from . import strings
         return strings.int_of_str(I, v, args[1] if len(args) > 1 else kwargs.get("base"))
+    if isinstance(v, VBytes):
+        c = v.concrete()
+        if c is not None:
+            try:
+                return VInt(int(c))
+            except ValueError as e:
+                I.raise_py(ValueError, str(e))
+        raise Unsupported("int() of symbolic bytes")
     if v is NONE:
         I.raise_py(TypeError, "int() argument must be a string, a bytes-like object or a real "
                               "number, not 'NoneType'")
@@ -1988,6 +2008,12 @@ def native_attr(I: Interp, v: V, name: str) -> V:
         if name in ("to_bytes", "bit_length", "from_bytes"):
             return VBound(name, v)
         if v.enum is not None:
+            found = I.class_lookup(v.enum, name)
+            if found and isinstance(found[1], (types.FunctionType, property, classmethod,
+                                               staticmethod)):
+                return I.bind_class_attr(found[0], found[1], v, v.enum)
+            if name in getattr(v.enum, "__members__", {}):
+                return wrap(v.enum.__members__[name])
             c = v.concrete()
             if name == "value":
                 return VInt(v.t)
@@ -2230,6 +2256,15 @@ def with_stmt(I: Interp, st: Any, fr: Frame) -> None:
             handler = wm(I, cm)
             if handler is not None:
                 break
+        if handler is None and isinstance(cm, VObj):
+            en, ex_ = I.class_lookup(cm.cls, "__enter__"), I.class_lookup(cm.cls, "__exit__")
+            if en and ex_ and isinstance(en[1], types.FunctionType):
+                def _exit(exc: Any, cm: VObj = cm) -> bool:
+                    r = I.call_py(ex_[1], [cm, NONE, exc if exc is not None else NONE, NONE],
+                                  {}, ex_[0])
+                    t = I.truth(r)
+                    return bool(t) if isinstance(t, bool) else False
+                handler = ((lambda cm=cm: I.call_py(en[1], [cm], {}, en[0])), _exit)
         if handler is None:
             raise Unsupported(f"with-statement on {cm!r} without a context-manager contract")
         enter, exit_ = handler
